@@ -288,9 +288,53 @@ def rule_qsign(facts):
     return r
 
 
+def _str_consts(rec):
+    out = set()
+
+    def walk(x):
+        if isinstance(x, dict):
+            if x.get("k") in ("c", "str") and isinstance(x.get("v"), str) and "str" in str(x.get("ty")):
+                out.add(x["v"].strip('"'))
+            for v in x.values():
+                walk(v)
+        elif isinstance(x, list):
+            for v in x:
+                walk(v)
+    walk(rec["bbs"])
+    return out
+
+
+def rule_rtwords(facts):
+    """Text round trip of intervals, vocabulary half: every unit word the interval formatter can print (singular and, when it appends
+    an `s`, plural) is a spelling the interval parser's unit table accepts. (`2 months` printed as `2 mons` and `mons` not being parseable
+    breaks `(x::VARCHAR)::INTERVAL = x` for every interval with a month component.)"""
+    r = RuleResult("C13-RTWORDS", "every unit word the interval formatter prints is accepted by the interval parser's unit table", floor=3)
+    fm = facts.fns_matching(lambda i: "cast::format::IntervalFormatter as" in i and i.endswith("::write"))
+    ps = facts.fns_matching(lambda i: "cast::parse::IntervalUnit as std::str::FromStr>::from_str" in i)
+    if not fm or not ps:
+        r.missing_anchor("IntervalFormatter::write / IntervalUnit::from_str")
+        return r
+    fconst = _str_consts(fm[0])
+    accepted = _str_consts(ps[0])
+    words = sorted({w for cst in fconst for w in re.findall(r"[a-z]{2,}", cst)})
+    plural = "s" in fconst or any(re.search(r"[a-z]s\b", cst) for cst in fconst)
+    r.functions.update([fm[0]["id"], ps[0]["id"]])
+    if len(accepted) < 10:
+        r.missing_anchor("unit spellings in IntervalUnit::from_str")
+        return r
+    for w in words:
+        forms = [w] + ([w + "s"] if plural else [])
+        missing = [x for x in forms if x not in accepted]
+        r.inst({"word": w, "forms": forms, "accepted_by_parser": not missing}, not missing)
+        if missing:
+            r.violate(fm[0]["id"], f"unparseable-unit:{w}", f"the interval formatter prints `{'`/`'.join(missing)}` but the parser's unit table does not accept it: the text of an "
+                      "interval with that component does not read back", fm[0]["file"], fm[0]["line"])
+    return r
+
+
 def run(ctx):
     facts = ctx["facts"]
-    return [rule_flat(facts), rule_tab(facts), rule_narrow(facts), rule_qsign(facts)]
+    return [rule_flat(facts), rule_tab(facts), rule_narrow(facts), rule_qsign(facts), rule_rtwords(facts)]
 
 
 CLAIM = {
